@@ -79,9 +79,18 @@ Section Spec2.
         | RErr ERep | RDiv => True
         | _ => False
         end
-    (* replace_with(None) of a parent-less receiver = detach; its ASTNodeReplaceWithError leaves the state alone *)
+    (* replace_with(None): of a parent-less receiver (= detach), or of an attached node that has a parent (removal
+       from a single-child or tuple/list field), the parent's field names being distinct (a class instance);
+       its ASTNodeReplaceWithError leaves the state alone *)
     | OReplaceWith a None =>
-        match ob with RNone => parent s a = None | RErr ERw | RDiv => True | _ => False end
+        match ob with
+        | RNone => parent s a = None \/
+                   (live s a /\ attached s a /\
+                    exists p f, parent s a = Some p /\ c_pf (cellD s a) = Some f /\
+                                NoDup (map fst (c_fs (cellD s p))))
+        | RErr ERw | RDiv => True
+        | _ => False
+        end
     (* replace_with(node) of a parent-less receiver, the node being detached once the receiver is: detach + id flip +
        attach; the guard of attach is read on the state in which the node already carries the receiver's id *)
     | OReplaceWith a (Some n) =>
